@@ -86,41 +86,30 @@ def run(model, rep):
     # what minify() returns, evaluated over preserve_shebang x (first line is / is not a shebang) x (text / bytes source)
     for preserve in (True, False):
         for shebang in (None, '#!/usr/bin/env python3 -O'):
-            for source in ('SOURCE TEXT', b'SOURCE BYTES'):
-                r = apirun.run(model, kwargs={'preserve_shebang': preserve}, shebang=shebang, source=source)
+            for as_bytes in (False, True):
+                text_src = (shebang + '\n' if shebang else '') + 'import sys\nprint(sys.argv)\n'
+                source = text_src.encode('utf-8') if as_bytes else text_src
+                r = apirun.run(model, kwargs={'preserve_shebang': preserve}, source=source, real_shebang=True)
                 if r.outcome[0] != 'return':
                     raise AnalysisError('UNDECIDED: minify(preserve_shebang=%r) -> %s' % (preserve, r.outcome))
                 want = (shebang + '\n' + 'MINIFIED') if (preserve and shebang) else 'MINIFIED'
-                finds = [t for t in r.trace if t[0] == 'call' and t[1] == '_find_shebang']
-                looked_at_source = all(t[2] and t[2][0] is source or (t[2] and t[2][0] == source) for t in finds)
-                label = 'preserve_shebang=%r, %s, %s source' % (preserve, 'first line %r' % shebang if shebang else 'no shebang line', 'bytes' if isinstance(source, bytes) else 'text')
-                rep.check(r.outcome[1] == want and looked_at_source, 'C16.SHEB', mi.loc(), '%s -> %r' % (label, r.outcome[1]),
+                label = 'preserve_shebang=%r, %s, %s source' % (preserve, 'first line %r' % shebang if shebang else 'no shebang line', 'bytes' if as_bytes else 'text')
+                rep.check(r.outcome[1] == want, 'C16.SHEB', mi.loc(), '%s -> %r' % (label, r.outcome[1]),
                           'the shebang line, a newline, then the printed module - only when preservation is on and the source has one',
-                          'minify returns %r, expected %r%s' % (r.outcome[1], want, '' if looked_at_source else ' (the shebang is looked for in something other than the source)'), key='C16.SHEB|minify-return|' + label)
+                          'minify returns %r, expected %r' % (r.outcome[1], want), key='C16.SHEB|minify-return|' + label)
     sheb_enum(model, rep)
     rep.floor('C16.SHEB', 17)
 
-    # ---- DEC: decode()/str(bytes)/bytes.decode on the minify path
-    reach = set()
-    from ..callgraph import CallGraph
-    cg = CallGraph(model)
-    reach = cg.reachable([MINIFY, 'python_minifier.unparse', 'python_minifier.awslambda'])
-    n_dec = 0
-    for q in sorted(reach):
-        fi = model.funcs[q]
-        for c in calls(fi.node):
-            if isinstance(c.func, ast.Attribute) and c.func.attr == 'decode':
-                n_dec += 1
-                enc = c.args[0] if c.args else kwarg(c, 'encoding')
-                errs = kwarg(c, 'errors', 1)
-                enc_v = enc.value if isinstance(enc, ast.Constant) else None
-                errs_v = errs.value if isinstance(errs, ast.Constant) else None
-                total = (enc_v or '').lower() in ('latin-1', 'latin1', 'iso-8859-1') or errs_v in ('replace', 'ignore', 'backslashreplace', 'surrogateescape')
-                declared = enc is not None and not isinstance(enc, ast.Constant)  # a computed (detected) encoding
-                rep.check(total or declared, 'C16.DEC', fi.loc(c), src(c), 'decode cannot fail or uses a detected encoding',
-                          'input-derived bytes are decoded with the implicit strict UTF-8 codec: a source whose declared encoding is not UTF-8 makes minify raise UnicodeDecodeError',
-                          key='C16.DEC|%s|%s' % (fi.name, src(c)))
-    rep.floor('C16.DEC', 1, n_dec)
+    # ---- DEC: bytes sources whose first line holds bytes that are not UTF-8 (legal under a latin-1 / cp1252 cookie on the second line): minify()
+    # evaluated (pmstatic.apirun, the repository's own pattern and decoding run for real) must not fail on them
+    for what, source in (('shebang line with a latin-1 byte, cookie on line 2', b'#!/usr/bin/python\xe9\n# -*- coding: latin-1 -*-\nx = 1\n'),
+                         ('plain ASCII shebang under a latin-1 cookie', b'#!/usr/bin/python\n# -*- coding: latin-1 -*-\nx = "\xe9"\n')):
+        r = apirun.run(model, kwargs={'preserve_shebang': True}, source=source, real_shebang=True)
+        ok = r.outcome[0] == 'return'
+        rep.check(ok, 'C16.DEC', mi.loc(), 'minify(<bytes: %s>, preserve_shebang=True) -> %s' % (what, r.outcome[0] if not ok else 'returns'), 'the source is accepted',
+                  'minify raises %s for a valid source: input-derived bytes are decoded with the implicit strict UTF-8 codec although the source declares another encoding' % (r.outcome[1],),
+                  key='C16.DEC|' + what)
+    rep.floor('C16.DEC', 2)
 
     # ---- REPR: the token printer's string / bytes literal emitters abstractly run on crafted values. The emitted text must denote the identical
     # constant, must be encodable as UTF-8 (no lone surrogate) and must not contain a raw CR, LF or NUL (universal newlines would rewrite a CR inside
